@@ -131,6 +131,13 @@ def run(tier):
         engine.replay(vd, vecs, bdir, wd, PID, check_illformed=False)
         base += [v for v in vecs if v["kind"] == "stream"]
     # the patterns tree::simplify rewrites, inside every kind of sub-expression (a CAT that stands alone there)
+    # infix comparisons under ?( ) and !( ) with operands that yield no value, one, several: what a rewrite of
+    # the tree may and may not assume about them (`!(A < B)' is not `(A >= B)')
+    rcmp = engine.model_check(vd, "cmp", 2)
+    if rcmp.violated:
+        vd.observe("model:cmp:" + rcmp.violated, {"output": rcmp.out[-4000:]})
+    vcmp, st = engine.generate("cmp", 3, 16, wd, nosimp=True)
+    engine.replay(vd, vcmp, bdir, wd, PID, check_illformed=False)
     rsim = engine.model_check(vd, "simp", 3)
     if rsim.violated:
         vd.observe("model:simp:" + rsim.violated, {"output": rsim.out[-4000:]})
